@@ -22,7 +22,12 @@ def run_one(prop, tier, only=None, quiet=False):
         ck.assumptions = list(getattr(mod, "ASSUMPTIONS", []))
         ck.trusted = list(getattr(mod, "TRUSTED", []))
         ck.only = only
-        mod.run(ck)
+        try:
+            mod.run(ck)
+        except AnalysisError as e:
+            # an anchor vanished / a rule group could not run: no verdict from the groups that did not run, but violations already
+            # established by the groups that did run stand (exit 1 takes precedence over exit 2)
+            ck.unsure("ENGINE", None, "all rule groups of the property could be evaluated", None, str(e))
         if tier == "thorough":
             if hasattr(mod, "run_thorough"):
                 mod.run_thorough(ck)
